@@ -9,7 +9,7 @@ import sympy
 from hypothesis import strategies as st
 
 import cirq
-from vf.core import Reject, SubCheck, Violation, recipe_hash
+from vf.core import SubCheck, Violation, recipe_hash
 from vf.ref import circuit_model as M
 
 RULE = (
@@ -523,19 +523,26 @@ class Interp:
         groups = collections.OrderedDict()
         for j in order:
             groups.setdefault(entries[j][0], []).append(j)
-        inserted, point, slack = [], {}, {}
+        inserted, point, slack, zone = [], {}, {}, {}
+        zones = []  # (index, number of items) of the earlier groups that are multi-op mid-circuit EARLIEST inserts
         for i, js in groups.items():
             seq = [it for j in reversed(js) for it in entries[j][2]]
+            # An earlier multi-op group may occupy the existing moments i' .. i'+L-1 (carve-out of the statement) and create
+            # moments anywhere in that zone; an insertion point inside the zone is then only located up to the rest of it.
+            extra = max([i2 + L - i for i2, L in zones if i < i2 + L] + [0])
             for pos, (_, ids) in enumerate(seq):
                 inserted.append(ids)
                 for x in ids:
                     point[x] = i
-                    slack[x] = pos if (len(seq) >= 2 and i < n) else 0
+                    slack[x] = (pos if (len(seq) >= 2 and i < n) else 0) + extra
+                    zone[x] = len(seq) if (len(seq) >= 2 and i < n) else 0
+            if len(seq) >= 2 and i < n:
+                zones.append((i, len(seq)))
         ins = [x for ids in inserted for x in ids]
         self.need_ids(what, pre, post, ins)
         if any(i < n for i in groups):
             self.stats["mid"] += 1
-        self.order(what, pre, post, inserted=inserted, point=point, slack=slack)
+        self.order(what, pre, post, inserted=inserted, point=point, slack=slack, zone=zone)
         self.layout = post
 
     def a_binto(self, a):
@@ -1065,24 +1072,16 @@ def _features(recipe):
     return _DETECT_CACHE[h]
 
 
-# No pending or known findings: F11 (with_tags kept a fresh placement cache), F12 (batch_insert over-shift) and F13
-# (prev_moment_operating_on past the end) were repaired in /repo (402562f, c2d6187, 0961180); their recipes run as
-# explicit examples below.  A future predicate can use ``_features(recipe)`` (interpreter in detect mode).
+# No pending or known findings.  F11 (with_tags kept a fresh placement cache), F12 (batch_insert over-shift) and F13
+# (prev_moment_operating_on past the end) were repaired in /repo (402562f, c2d6187, 0961180); their recipes live in
+# /verif/findings/C05.json and are replayed as explicit examples by the runner.  A future predicate can be written as
+# ``lambda sub, recipe: "Fxx" in _features(recipe)`` (interpreter in detect mode, add the feature in the handler).
 KNOWN_FEATURES = {}
-
-FIXED_EXAMPLES = [
-    {"actions": [{"a": "new", "s": 0, "tree": [["X", [0], 0], ["CZ", [0, 1], 0]]}, {"a": "tags", "t": ["t"]},
-                 {"a": "append", "s": 0, "tree": [["Y", [1], 0]]}]},
-    {"actions": [{"a": "new", "s": 1, "tree": [["X", [0], 0], ["Y", [1], 0], ["Z", [2], 0], ["H", [0], 0]]},
-                 {"a": "binsert", "ins": [[1, [["S", [0], 0]]], [2, [["T", [2], 0]]]]}]},
-    {"actions": [{"a": "new", "s": 1, "tree": [["X", [0], 0], ["Y", [1], 0], ["Z", [1], 0]]},
-                 {"a": "query", "q": ["nextprev"], "qs": [0], "i": 4, "d": None, "past": True}]},
-]
 
 from vf.gen.c05_history import history  # noqa: E402
 
 SUBCHECKS = [
-    SubCheck("history", history("all", 10, 30), oracle, examples=FIXED_EXAMPLES, quick=8000, thorough=160000, shards_quick=16, shards_thorough=32,
+    SubCheck("history", history("all", 10, 30), oracle, quick=8000, thorough=160000, shards_quick=16, shards_thorough=32,
              essential={"mid_circuit_edit": 0.5, "non_earliest": 0.5, "conflicting_pair": 0.7, "query_between_edits": 0.5}),
     SubCheck("append_cache", history("append", 8, 24, pool="keys"), oracle, quick=5000, thorough=100000, shards_quick=8, shards_thorough=16,
              essential={"query_between_edits": 0.4, "key_ops": 0.5}),
